@@ -87,8 +87,21 @@ def oracle(ctx):
 
     # every other normal run goes into an output directory that already holds longer files of the same names
     stale = [i % 2 == 1 for i in range(len(trees))]
-    both = lambda ts: e2e.run_pair(ts[0], stale=ts[1])
-    for files, (d, n) in zip(trees, e2e.pmap(both, list(zip(trees, stale)))):
+    # the list of search directories is part of the input: entries that are missing, dangling links, link loops, plain files
+    odd_dirs = []
+    for i in range(len(trees)):
+        r = rnd.random()
+        odd_dirs.append(None if r < 0.7 else rnd.choice(['missing', 'dangling', 'loop', 'file', 'dangling-first']))
+
+    def both(ts):
+        files, st, odd = ts
+        if odd is None:
+            return e2e.run_pair(files, stale=st)
+        links = {'dangling': {'odd': 'nowhere/at/all'}, 'dangling-first': {'odd': 'nowhere'}, 'loop': {'odd': 'odd2', 'odd2': 'odd'}}.get(odd)
+        if odd == 'file':
+            files = dict(files, odd='not a directory')
+        return e2e.run_pair(files, stale=st, symlinks=links, extra_dirs=('odd',))
+    for files, (d, n) in zip(trees, e2e.pmap(both, list(zip(trees, stale, odd_dirs)))):
         res.oracle_evals += 1
         fails = []
         if d['before'] != d['after']:
